@@ -110,9 +110,38 @@ var c15Contexts = map[string]struct {
 		}
 		return nil, false
 	}},
+	// the command inside a substitution is not double-quoted text, wherever the substitution stands
+	"in_dquoted_substitution": {"_ \"a $(_ %s yy) b\" zz\n", func(c ast.Command) (ast.Word, bool) {
+		if w, ok := c15Arg(c, 3, 1); ok && len(w) == 1 {
+			if q, ok := w[0].(*ast.Quote); ok && len(q.Value) == 3 {
+				if cs, ok := q.Value[1].(*ast.CmdSubst); ok && len(cs.List) == 1 {
+					return c15Arg(cs.List[0], 3, 1)
+				}
+			}
+		}
+		return nil, false
+	}},
+	"in_heredoc_substitution": {"cat <<E\n$(_ %s yy)\nE\n", func(c ast.Command) (ast.Word, bool) {
+		if cm, ok := c.(*ast.Cmd); ok && len(cm.Redirs) == 1 && len(cm.Redirs[0].Heredoc) >= 1 {
+			if cs, ok := cm.Redirs[0].Heredoc[0].(*ast.CmdSubst); ok && len(cs.List) == 1 {
+				return c15Arg(cs.List[0], 3, 1)
+			}
+		}
+		return nil, false
+	}},
+	"in_dquoted_backquotes": {"_ \"`_ %s yy`\" zz\n", func(c ast.Command) (ast.Word, bool) {
+		if w, ok := c15Arg(c, 3, 1); ok && len(w) == 1 {
+			if q, ok := w[0].(*ast.Quote); ok && len(q.Value) == 1 {
+				if cs, ok := q.Value[0].(*ast.CmdSubst); ok && len(cs.List) == 1 {
+					return c15Arg(cs.List[0], 3, 1)
+				}
+			}
+		}
+		return nil, false
+	}},
 }
 
-var c15CtxNames = []string{"arg_newline", "arg_then_word", "command_name", "after_and", "after_and_newline", "after_pipe", "in_braces", "case_word", "case_pattern", "for_item", "redirection", "in_substitution"}
+var c15CtxNames = []string{"arg_newline", "arg_then_word", "command_name", "after_and", "after_and_newline", "after_pipe", "in_braces", "case_word", "case_pattern", "for_item", "redirection", "in_substitution", "in_dquoted_substitution", "in_heredoc_substitution", "in_dquoted_backquotes"}
 
 // c15Arg returns word i of a simple command of exactly n words.
 func c15Arg(c ast.Command, n, i int) (ast.Word, bool) {
@@ -157,6 +186,15 @@ func c15Quote(s, how string) (string, bool) {
 			b.WriteRune(r)
 		}
 		return b.String(), true
+	case how == "param-single" || how == "param-double" || how == "param-backslash":
+		// the quoted text as the default of a parameter that is never set
+		// (only where the expansion itself is not inside double-quotes: there
+		// the word would be double-quoted text)
+		q, ok := c15Quote(s, strings.TrimPrefix(how, "param-"))
+		if !ok || strings.Contains(s, "}") && how == "param-backslash" {
+			return "", false
+		}
+		return "${c15_never_set-" + q + "}", true
 	case strings.HasPrefix(how, "mixed:"):
 		choices := how[6:]
 		if s == "" {
@@ -486,7 +524,7 @@ func TestC15(t *testing.T) {
 			if idx%nsh != sh {
 				return
 			}
-			for qi, how := range []string{"single", "double", "backslash", "mixed:" + fmt.Sprintf("%03d", idx%1000)} {
+			for qi, how := range []string{"single", "double", "backslash", "mixed:" + fmt.Sprintf("%03d", idx%1000), []string{"param-single", "param-double", "param-backslash"}[idx%3]} {
 				if strings.HasPrefix(how, "mixed:") {
 					// a mix derived from the index: digits 0,1,2 select ', \ and "
 					how = "mixed:" + strings.Map(func(r rune) rune { return '0' + (r-'0')%3 }, fmt.Sprintf("%04d", idx%10000))
@@ -551,7 +589,7 @@ func TestC15(t *testing.T) {
 	pool := append(append([]string{}, c15Alpha...), "\uFFFD", "\r", "\u00a0", "e\u0301", "\U0001F600", "\u0080", "\f", "日", "x", "ab", "$a", "${b}", "$(c)", "`c`", "$((1))", "~/", "*/", "[a-b]", `\n`, "''", `""`)
 	prop := func(rt *rapid.T) {
 		s := strings.Join(rapid.SliceOfN(rapid.SampledFrom(pool), 0, 12).Draw(rt, "s"), "")
-		how := rapid.SampledFrom([]string{"single", "double", "backslash", "mixed"}).Draw(rt, "quote")
+		how := rapid.SampledFrom([]string{"single", "double", "backslash", "mixed", "param-single", "param-double", "param-backslash"}).Draw(rt, "quote")
 		if how == "mixed" {
 			var b strings.Builder
 			for range []rune(s) {
